@@ -130,6 +130,48 @@ def split_trace(tr, d, tag):
     return out
 
 
+def trace_widths(tr):
+    """queue index -> dq_width, from the Reset markers."""
+    w = {}
+    for line in open(tr):
+        if '"Reset"' in line:
+            j = json.loads(line)
+            w[j["q"]] = j["w"]
+    return w
+
+
+def word_level_hint(tr, d, tag):
+    """For an execution that hung or crashed: where does the recorded word-level behaviour leave the spec first?
+    (informational: the verdict is already decided by the hang / crash)"""
+    try:
+        if not os.path.exists(tr):
+            return ""
+        widths = trace_widths(tr)
+        nt = count_threads(tr) + 1
+        best = None
+        for q, p in sorted(split_trace(tr, d, tag).items()):
+            if q not in widths:
+                continue
+            lines = open(p).read().splitlines()
+            if any('"f":"_dispatch_workloop' in l for l in lines[:400]):
+                continue
+            res = validate_trace("LaneWordTrace.tla", wordtrace_cfg(widths[q]), p, nthreads=nt, metaname="C03_hint_%s_%d" % (tag, q))
+            if not res.accepted and res.maxl:
+                # maxl = index (file with header) of the first record not consumed; an invariant is violated by the last consumed one
+                k = res.maxl - (3 if res.violated else 2)
+                if 0 <= k < len(lines):
+                    rec = json.loads(lines[k])
+                    if rec.get("e") == "St":
+                        cand = ("queue #%d: after %s (%s) by thread %s the word violates %s (width accounting)" % (
+                                    q, rec.get("f"), rec.get("op"), rec.get("t"), res.violated)) if res.violated else \
+                               ("queue #%d: %s (%s) by thread %s is not a transition its DQState operator allows from the word the queue was in" % (
+                                    q, rec.get("f"), rec.get("op"), rec.get("t")))
+                        best = best or cand
+        return ("; word-level: " + best) if best else ""
+    except Exception as ex:      # never let the hint decide anything
+        return ""
+
+
 def wordtrace_cfg(W):
     cfg = os.path.join(rundir(PROP), "LaneWordTrace_W%d.cfg" % W)
     open(cfg, "w").write(open(os.path.join(SPEC, "cfg", "LaneWordTrace.cfg")).read().replace("W = 1", "W = %d" % W))
@@ -206,7 +248,9 @@ def drive(v, seed, runs):
         if rc in (70, 71):
             what = "crash inside libdispatch" if rc == 70 else "hang: work stranded in the hierarchy / a synchronous call never returned"
             p = save_replay(PROP, "fail_%d.ndjson" % s, src=tr) if os.path.exists(tr) else tr
-            v.violation("%s (%s): %s" % (what, desc, err.strip()[-300:]), p)
+            online = re.findall(r"ORACLE-FAIL C03 (.*)", err)
+            v.violation("%s (%s): %s%s%s" % (what, desc, err.strip()[-200:], ("; before that: " + online[0]) if online else "",
+                                          word_level_hint(tr, d, "fail_%d" % i)), p)
             continue
         if rc not in (0, 2):
             raise Broken("chain driver failed rc=%d (%s): %s" % (rc, desc, err[-800:]))
@@ -214,12 +258,11 @@ def drive(v, seed, runs):
         if fails:
             p = save_replay(PROP, "oracle_%d.ndjson" % s, src=tr)
             v.violation("API oracle (%s): %s" % (desc, "; ".join(x[1] for x in fails[:3])), p)
-        m = re.search(r"widths=([\d,]+)", err)
-        if not m:
-            raise Broken("chain driver printed no hierarchy summary (%s): %s" % (desc, err[-300:]))
-        widths = [int(x) for x in m.group(1).split(",")]
         nt = count_threads(tr) + 1
         parts = split_trace(tr, d, "chain_%d" % i)
+        widths = trace_widths(tr)
+        if not parts or any(q not in widths for q in parts):
+            raise Broken("chain driver trace has no hierarchy description (%s): %s" % (desc, err[-300:]))
         for q in sorted(parts):
             if shape == 6 and q == 0:
                 continue    # the workloop's own word is driven by _dispatch_workloop_*: not a lane, not modelled
